@@ -89,7 +89,100 @@ toposort = Contract(
     note="keys normalised to a list and dependencies given explicitly (toposort/getcycle pass them or build DependenciesMapping: assumed to be the dependency map)",
 )
 
-CONTRACTS = [toposort]
+# ------------------------------------------------------------------------------------------------------------
+# returncycle=True: the cycle-reconstruction block itself.  Ghost state: `push[j]` = stack index of the entry whose
+# expansion pushed stack entry j, `exp[k]` = stack index at which the node k (in `seen`) is being expanded, `rank`/`CNT`
+# = completion order (for the empty answer), snapshots `nodes0`/`push0` at the moment a cycle is detected, `DJ[x]` =
+# deepest popped stack index holding x.
+reverse_dict = Contract(
+    MODULE, "reverse_dict", assumed=True,
+    params={"d": Deps}, returns=Deps,
+    ensures=[
+        ("keys-kept", "d.keys() <= result.keys()"),
+        ("reversed", "forall(lambda k, v: implies(v in result.keys(), (k in result[v]) == (k in d.keys() and v in d[k])), Key, Key)"),
+    ],
+    note="ASSUMED (bounded natively through getcycle): reverse_dict inverts a dependency map; keys of the input stay keys",
+)
+
+_STACK = [
+    ("push-len", "len(push) == len(nodes)"),
+    ("pusher", "forall(lambda j: implies(1 <= j and j < len(nodes), 0 <= push[j] and push[j] < j and nodes[push[j]] in seen and exp[nodes[push[j]]] == push[j] and nodes[j] in dependencies[nodes[push[j]]]))"),
+    ("expanded-entry-is-topmost", "forall(lambda k: implies(k in seen, k in exp.keys() and 0 <= exp[k] and exp[k] < len(nodes) and nodes[exp[k]] == k), Key) and forall(lambda k, j: implies(k in seen and exp[k] < j and j < len(nodes), nodes[j] != k), Key, Int)"),
+    ("stack-discipline", "forall(lambda k, j: implies(k in seen and exp[k] < j and j < len(nodes), push[j] >= exp[k]), Key, Int)"),
+    ("stack-reachable", "forall(lambda j: implies(0 <= j and j < len(nodes), nodes[j] in REACH))"),
+]
+_RANK = [
+    ("rank", "forall(lambda k: implies(k in completed, k in rank.keys() and 0 <= rank[k] and rank[k] < CNT), Key) and CNT >= 0"),
+    ("C07-completed-are-ranked-after-their-dependencies", "forall(lambda k, d: implies(k in completed and d in dependencies[k], d in completed and rank[d] < rank[k]), Key, Key)"),
+    ("completed-are-graph-keys", "completed <= dependencies.keys()"),
+    ("seen-completed-disjoint", "forall(lambda k: not (k in seen and k in completed), Key)"),
+    ("earlier-keys-done", "forall(lambda j: implies(0 <= j and j < t, keys[j] in completed))"),
+]
+_L1 = [
+    ("stack-in-graph", "forall(lambda j: implies(0 <= j and j < len(nodes), nodes[j] in dependencies.keys())) and len(nodes) >= 0"),
+    ("bottom-is-key", "implies(len(nodes) > 0, nodes[0] == key) and implies(len(nodes) == 0, key in completed and seen == EMPTYK)"),
+    ("t-range", "0 <= t and t < len(keys) and key == keys[t]"),
+    ("seen-in-graph", "seen <= dependencies.keys()"),
+]
+_POPPED = ("forall(lambda j: implies(len(nodes) <= j and j < len(nodes0), nodes0[j] in priorities.keys() and DJ[nodes0[j]] <= j))"
+           " and forall(lambda x: implies(x in priorities.keys(), len(nodes) <= DJ[x] and DJ[x] < len(nodes0) and nodes0[DJ[x]] == x and priorities[x] == DJ[x] - (len(nodes0) - 1)), Key)")
+
+cycle_c = Contract(
+    MODULE, "_toposort[returncycle]", source="_toposort",
+    params={"dsk": Deps, "keys": T.Seq(Key), "returncycle": T.Bool, "dependencies": Deps, "REACH": SetK},
+    locals={"completed": SetK, "seen": SetK, "nodes": T.Seq(Key), "next_nodes": T.Seq(Key), "cur": Key, "prev": Key,
+            "priorities": T.Map(Key, T.Int), "npopped": T.Int, "inplay": SetK, "dependents": Deps, "cycle": T.Seq(Key), "deps": SetK,
+            "push": T.Seq(T.Int), "exp": T.Map(Key, T.Int), "rank": T.Map(Key, T.Int), "CNT": T.Int,
+            "nodes0": T.Seq(Key), "push0": T.Seq(T.Int), "DJ": T.Map(Key, T.Int), "E0": T.Int},
+    returns=T.Seq(Key),
+    requires=[
+        ("want-cycle", "returncycle"),
+        ("closed", "forall(lambda k: implies(k in dependencies.keys(), dependencies[k] <= dependencies.keys()), Key)"),
+        ("keys-in-graph", "forall(lambda j: implies(0 <= j and j < len(keys), keys[j] in dependencies.keys()))"),
+        ("REACH is any set that contains the start keys and is closed under dependencies",
+         "forall(lambda j: implies(0 <= j and j < len(keys), keys[j] in REACH)) and forall(lambda k, d: implies(k in REACH and k in dependencies.keys() and d in dependencies[k], d in REACH), Key, Key)"),
+    ],
+    ensures=[
+        ("C07-empty-answer-means-acyclic (every start key completed, completed keys ranked after their dependencies)",
+         "implies(len(result) == 0, forall(lambda j: implies(0 <= j and j < len(keys), keys[j] in completed)) and forall(lambda k, d: implies(k in completed and d in dependencies[k], d in completed and rank[d] < rank[k]), Key, Key))"),
+        ("C07-cycle-is-closed", "implies(len(result) > 0, len(result) >= 2 and result[0] == result[len(result) - 1])"),
+        ("C07-cycle-follows-dependencies", "forall(lambda i: implies(0 <= i and i < len(result) - 1, result[i] in dependencies.keys() and result[i + 1] in dependencies[result[i]]))"),
+        ("C07-cycle-is-reachable-from-the-keys", "forall(lambda i: implies(0 <= i and i < len(result), result[i] in REACH))"),
+    ],
+    loops={
+        0: dict(index="t", invariant=_RANK + [("between-keys", "seen == EMPTYK")]),
+        1: dict(invariant=_RANK + _L1 + _STACK),
+        2: dict(done="DN", invariant=[
+            ("next-nodes", "forall(lambda d: implies(d in DN, d in completed or d in next_nodes), Key)"),
+            ("next-are-fresh-dependencies-of-cur", "forall(lambda j: implies(0 <= j and j < len(next_nodes), next_nodes[j] in dependencies[cur] and next_nodes[j] not in seen and next_nodes[j] in dependencies.keys())) and len(next_nodes) >= 0"),
+        ]),
+        3: dict(invariant=[
+            ("prefix", "len(nodes) + npopped == len(nodes0) and npopped >= 0 and E0 < len(nodes) and forall(lambda j: implies(0 <= j and j < len(nodes), nodes[j] == nodes0[j]))"),
+            ("popped-entries-are-in-play, priority = depth of the deepest popped copy", _POPPED),
+        ]),
+        4: dict(invariant=[
+            ("walk-shape", "len(cycle) >= 2 and cycle[0] == nxt and cycle[len(cycle) - 1] == prev"),
+            ("C07-each-step-follows-a-dependency", "forall(lambda i: implies(1 <= i and i < len(cycle), cycle[i] in dependencies.keys() and cycle[i - 1] in dependencies[cycle[i]]))"),
+            ("walk-in-play", "forall(lambda i: implies(0 <= i and i < len(cycle), cycle[i] in inplay))"),
+        ]),
+    },
+    ghost=[
+        ("before", "completed = set()", "rank = {}\nCNT = 0"),
+        ("after", "nodes = [key]", "push = [0 - 1]\nexp = {}"),
+        ("after", "seen.add(cur)", "exp[cur] = len(nodes) - 1"),
+        ("before", "nodes.extend(next_nodes)", "push = push + [len(nodes) - 1] * len(next_nodes)"),
+        ("after", "=nodes.pop()", "push = push[:len(nodes)]"),
+        ("after", "completed.add(cur)", "rank[cur] = CNT\nCNT = CNT + 1"),
+        ("before", "priorities = {}", "nodes0 = nodes\npush0 = push\nDJ = {}\nE0 = exp[nxt]"),
+        ("after", "priorities[nodes.pop()] = -npopped", "DJ[nodes0[len(nodes)]] = len(nodes)"),
+        ("after", "priorities[nxt] = -npopped", "DJ[nxt] = E0\nassert_(len(nodes) - 1 == E0, 'stopped-at-the-expanded-entry')"),
+        ("before", "deps = dependents[cycle[-1]]", "assert_(prev in inplay and prev != nxt and E0 < DJ[prev] and E0 <= push0[DJ[prev]] and nodes0[push0[DJ[prev]]] in inplay and prev in dependencies[nodes0[push0[DJ[prev]]]], 'the-entry-that-pushed-prev-is-in-play-and-depends-on-it')"),
+    ],
+    drop=["if keys is None", "if dependencies is None"],
+    note="partial correctness of getcycle's answer, including that the greedy walk never runs out of candidates (no ValueError/KeyError/IndexError); termination of the walk is bounded natively",
+)
+
+CONTRACTS = [toposort, reverse_dict, cycle_c]
 
 
 def setup(eng):
@@ -98,3 +191,4 @@ def setup(eng):
     eng.spec_types["Key"] = Key
     eng.consts["EMPTYK"] = SV(SetK.empty(), SetK)
     eng.isinstance_static[("Seq<Key>", "list")] = True
+    eng.funcs["reverse_dict"] = FuncVal("reverse_dict", "contract", reverse_dict)
